@@ -240,6 +240,46 @@ def run_case(inp):
         mc.rotate_by(W, copy=False)
         if np.abs(mc.pos - (pos + d.astype(np.float32))).max() > 1e-5 or (mc.rotator * (W * rots).inv()).magnitude().max() > 1e-6:
             V("compose", "in-place operations differ from the copying ones")
+    elif kind == "alias":
+        # copy=True results share nothing with their source: a later in-place operation on either
+        # object leaves the other (and the caller's own arrays) untouched
+        W = Rotation.random(random_state=inp["seed"] + 5)
+        d = r.uniform(-3, 3, size=3)
+        derive = {
+            "rotate_by": lambda q: q.rotate_by(W),
+            "rotate_by_rotvec": lambda q: q.rotate_by_rotvec(W.as_rotvec()),
+            "rotate_by_quaternion": lambda q: q.rotate_by_quaternion(W.as_quat()),
+            "rotate_by_matrix": lambda q: q.rotate_by_matrix(W.as_matrix()),
+            "rotate_by_rotvec_internal": lambda q: q.rotate_by_rotvec_internal(W.as_rotvec()),
+            "translate": lambda q: q.translate(d),
+            "translate_internal": lambda q: q.translate_internal(d),
+            "copy": lambda q: q.copy(),
+            "subset": lambda q: q.subset(slice(None)),
+        }
+        inplace = {
+            "translate": lambda q: q.translate(d, copy=False),
+            "translate_internal": lambda q: q.translate_internal(d, copy=False),
+            "rotate_by": lambda q: q.rotate_by(W, copy=False),
+            "rotate_by_rotvec_internal": lambda q: q.rotate_by_rotvec_internal(W.as_rotvec(), copy=False),
+        }
+        for dn, df in derive.items():
+            for on, of in inplace.items():
+                for target in ("derived", "source"):
+                    pos_in = pos.copy()
+                    src = Molecules(pos_in, rots)
+                    try:
+                        der = df(src)
+                        keep = src if target == "derived" else der
+                        p0, q0 = keep.pos.copy(), keep.rotator.as_quat().copy()
+                        of(der if target == "derived" else src)
+                    except Exception as e:  # noqa: BLE001
+                        V("no-error", f"{dn} then in-place {on}: {type(e).__name__}: {str(e)[:80]}")
+                        continue
+                    if not np.array_equal(keep.pos, p0) or np.abs(keep.rotator.as_quat() - q0).max() > 0:
+                        V("copy-independent", f"{dn}() result and its source share state: in-place {on} on the "
+                                              f"{target} changed the other object")
+                    if target == "derived" and not np.array_equal(pos_in, pos):
+                        V("copy-independent", f"in-place {on} after {dn}() overwrote the caller's position array")
     elif kind == "grids":
         shape = tuple(inp["shape"])
         scale = float(inp["scale"])
@@ -276,6 +316,7 @@ def oracle(rng, thorough, deep=False, hints=None):
         cases.append(dict(kind=kinds[it % len(kinds)], batch=batches[(it // len(kinds) + it) % len(batches)],
                           n=int(rng.integers(1, 9)), seed=int(rng.integers(0, 10 ** 6)),
                           shape=[int(x) for x in rng.integers(1, 6, size=3)], scale=float(rng.choice([1.0, 0.5, 2.5]))))
+    cases.append(dict(kind="alias", batch="generic", n=4, seed=int(rng.integers(0, 10 ** 6)), shape=[3, 3, 3], scale=1.0))
     # from_axes on every batch kind, always
     for b in batches:
         cases.append(dict(kind="from_axes", batch=b, n=5, seed=int(rng.integers(0, 10 ** 6)), shape=[3, 3, 3], scale=1.0))
